@@ -282,16 +282,20 @@ func (t *Tree) parseInnerExpr() (Expr, error) {
 		return NewArrayExpr(tok.Pos, els...), nil
 
 	case tokenNumber:
-		nxt := t.peek()
+		// A decimal is written NUMBER "." NUMBER. White space between these
+		// tokens changes nothing, and a "." that is not followed by a number
+		// is left for the caller: it begins an attribute access (a.0.b).
 		val := tok.value
-		if nxt.tokenType == tokenPunctuation && nxt.value == "." {
-			val = val + "."
-			t.next()
-			nxt, err := t.expect(tokenNumber)
-			if err != nil {
-				return nil, err
+		if dot := t.peekNonSpace(); dot.tokenType == tokenPunctuation && dot.value == "." {
+			t.nextNonSpace()
+			if frac := t.peekNonSpace(); frac.tokenType == tokenNumber {
+				t.nextNonSpace()
+				val = val + "." + frac.value
+			} else {
+				for t.backup(); t.unread[len(t.unread)-1] != dot; {
+					t.backup()
+				}
 			}
-			val = val + nxt.value
 		}
 		return NewNumberExpr(val, tok.Pos), nil
 
